@@ -10,3 +10,4 @@ import BqlVerif.Properties.C09
 import BqlVerif.Properties.C04
 import BqlVerif.Properties.C05
 import BqlVerif.Properties.C17
+import BqlVerif.Properties.C18
